@@ -42,6 +42,22 @@ def boundary_file(table, n):
         return HEAD + "#2=SIMPLE(1,2.5,3.5,'s',\"0\",.T.,.U.,.%s.);\n" % ("E" * n) + TAIL
     if table == "complex_parts":
         return HEAD + "#2=(%s);\n" % "".join("CPA(1,.RED.)" if k % 2 else "CBASE(1)" for k in range(n)) + TAIL
+    if table == "comment_len":
+        return HEAD + "/*%s*/\n#2=TGT(2);\n" % ("c" * n) + TAIL
+    if table == "comment_in_value":
+        return HEAD + "#2=SIMPLE(1,/*%s*/2.5,3.5,'s',\"0\",.T.,.U.,.RED.);\n" % ("c" * n) + TAIL
+    if table == "pre_header":
+        return "ISO-10303-21; /*%s*/\n" % ("c" * n) + p21.HEADER % "RT" + "DATA;\n#1=TGT(1);\n" + TAIL
+    if table == "header_string":
+        return HEAD.replace("'verif'", "'%s'" % ("h" * n)) + TAIL
+    if table == "instance_id":
+        return HEAD + "#%s=TGT(2);\n" % ("9" * n) + TAIL
+    if table.startswith("degenerate:"):
+        d = table.split(":")[1]
+        return {"empty": "", "magic_only": "ISO-10303-21;\n", "header_only": "ISO-10303-21;\n" + p21.HEADER % "RT",
+                "data_only": "DATA;\n#1=TGT(1);\nENDSEC;\n", "no_endsec": HEAD + "#2=TGT(2);\n", "no_end_marker": HEAD + "ENDSEC;\n",
+                "nul_bytes": HEAD + "#2=TGT(\0\0\0);\n\0" + TAIL, "binary_noise": "".join(chr((i * 37 + 11) % 256) for i in range(4000)),
+                "missing_file": None, "directory": None}[d]
     raise ValueError(table)
 
 
@@ -63,8 +79,12 @@ def run(ctx):
     ind = mkdir(os.path.join(wd, "in"))
     inputs = []       # (tag, path, driver)
     for f in sorted(fam, key=lambda f: (f["table"], f["n"])):
-        p = os.path.join(ind, "b_%s_%d.p21" % (f["table"], f["n"]))
-        open(p, "w").write(boundary_file(f["table"], f["n"]))
+        p = os.path.join(ind, "b_%s_%d.p21" % (f["table"].replace(":", "_"), f["n"]))
+        txt = boundary_file(f["table"], f["n"])
+        if txt is None:        # not a file: a path that does not exist / a directory
+            p = os.path.join(ind, "nosuch.p21") if f["table"].endswith("missing_file") else mkdir(os.path.join(ind, "adir.p21"))
+        else:
+            open(p, "w", encoding="latin-1").write(txt)
         inputs.append(("boundary:%s:%d" % (f["table"], f["n"]), p, drv))
     # C03's single-fault files (kinds schema)
     faults = []
@@ -93,12 +113,12 @@ def run(ctx):
     for bi, txt in enumerate(sel):
         body = txt.encode()
         start = txt.index("DATA;")
-        step = max(1, (len(body) - start) // (8 if ctx.quick else 40))
+        step = max(1, (len(body) - start) // 8) if ctx.quick else 1      # thorough: premature EOF at every offset
         for k in range(start, len(body), step):
             p = os.path.join(ind, "t%d_%d.p21" % (bi, k))
             open(p, "wb").write(body[:k])
             inputs.append(("truncate:%d:%d" % (bi, k), p, drv))
-        for m in range(6 if ctx.quick else 40):
+        for m in range(6 if ctx.quick else 300):
             b = bytearray(body)
             for _ in range(rnd.randint(1, 3)):
                 pos = rnd.randrange(start, len(b))
@@ -122,7 +142,7 @@ def run(ctx):
         resf = os.path.join(wd, "res_" + base)
         out = os.path.join(wd, "out_" + base)
         script = "scenario x\nnew 0\nread %s\nstates\nwritenv %s\nwritews %s.ws\nquit\n" % (p, out, out)
-        limit = 60 + os.path.getsize(p) // 2000
+        limit = 60 + (os.path.getsize(p) if os.path.isfile(p) else 0) // 2000
         t0 = time.time()
         try:
             q = subprocess.run([driver, resf], input=script.encode(), env=env, stdout=subprocess.DEVNULL, stderr=subprocess.PIPE, timeout=limit)
@@ -144,7 +164,57 @@ def run(ctx):
             if not frame and "terminate called" in err:
                 frame = "terminate: " + err.split("terminate called")[1][:80].strip().replace("\n", " ")
         return tag, rc, to, san, frame, round(time.time() - t0, 2), err[-700:]
+    # exhaustive short inputs per attribute kind: every string up to length 2 (quick) / 3 (thorough) over the kind's
+    # alphabet of spec/P21Lex.tla extended by the Part 21 punctuation, fed to STEPattribute::STEPread of the sanitizer build
+    from checks import c09
+    adrv = build.link_driver("attr_drv", [c09.DRV], cfg="asan", schema=sk)
+    PUNCT = ["(", ")", ",", ";", "$", "*", "/", "'", "#", "\\", " ", "=", "\""]
+    tokruns = []
+    ntok = 0
+    for kind, sigma in c09.ALPHA.items():
+        words = []
+        sig = sorted(set(sigma) | set(PUNCT))
+        cfg = 'CONSTANTS Kind = "%s" Sigma = {%s} MaxLen = %d\nINIT Init\nNEXT Next\nCONSTRAINT Bound\nINVARIANT Emit\n' % (
+            kind, ", ".join(json.dumps(c) for c in sig), 2 if ctx.quick else 4)
+        gt = tlc.run_tlc("P21Lex_Gen", None, cfg_text=cfg, workers=8, timeout=1800, on_case=words.append)
+        if gt.rc != 0 or gt.errors:
+            raise InfraError("P21Lex_Gen failed for %s: %s" % (kind, gt.tail[-10:]))
+        ws = sorted("".join(w["w"]) for w in words)
+        ws = [w for w in ws if "\t" not in w and "\n" not in w]
+        ntok += len(ws)
+        for k in range(0, len(ws), 4000):
+            tokruns.append((kind, k, ws[k:k + 4000]))
+
+    def feed(kind, ws):
+        inp = "".join("%s\t%s\t%s\n" % (kind, tail, w) for w in ws for tail in (",7);", ");"))
+        try:
+            q = subprocess.run([adrv], input=inp.encode("latin-1"), env=env, stdout=subprocess.DEVNULL, stderr=subprocess.PIPE, timeout=600)
+            rc, err, to = q.returncode, q.stderr.decode("latin-1")[-3000:], False
+        except subprocess.TimeoutExpired:
+            rc, err, to = 124, "", True
+        san = ("ERROR: AddressSanitizer" in err) or ("runtime error:" in err) or rc in (98, 99)
+        return rc, err, to, san
+
+    def tokrun(j):
+        kind, k, ws = j
+        t0 = time.time()
+        rc, err, to, san = feed(kind, ws)
+        bad = ""
+        if rc != 0 or to or san:       # find one token that reproduces it alone
+            lo = ws
+            while len(lo) > 1:
+                half = lo[:len(lo) // 2]
+                r2 = feed(kind, half)
+                lo = half if (r2[0] != 0 or r2[2] or r2[3]) else lo[len(lo) // 2:]
+            r3 = feed(kind, lo)
+            bad = lo[0] if (r3[0] != 0 or r3[2] or r3[3]) else "(only in sequence)"
+        return "tokens:%s:%d" % (kind, k), rc, to, san, ("token %r" % bad) if bad else "", round(time.time() - t0, 2), err[-700:]
     lines, meta = [], []
+    with cf.ThreadPoolExecutor(max_workers=8) as ex:
+        for tag, rc, to, san, frame, secs, err in ex.map(tokrun, tokruns):
+            lines.append(json.dumps({"e": "Run", "input": tag, "rc": rc if 0 <= rc < 1000 else 999, "signalled": rc < 0 or rc == 134, "sanitizer": san,
+                                     "timedout": to, "secs": secs}))
+            meta.append((tag, frame, err))
     with cf.ThreadPoolExecutor(max_workers=14) as ex:
         for tag, rc, to, san, frame, secs, err in ex.map(one, inputs):
             lines.append(json.dumps({"e": "Run", "input": tag, "rc": rc if 0 <= rc < 1000 else 999, "signalled": rc < 0 or rc == 134, "sanitizer": san,
@@ -164,7 +234,7 @@ def run(ctx):
         origin = ":".join(tag.split(":")[:2]) if tag.startswith(("boundary", "fault")) else tag.split(":")[0]
         try:
             content = open(paths[tag], "rb").read()[-1500:].decode("latin-1")
-        except OSError:
+        except (OSError, KeyError):
             content = ""
         ctx.violation("%s|%s|%s" % (what, origin if not frame else "-", frame or "rc%s" % ev["rc"]),
                       "%s: reading/writing %s (rc %s, %.1fs) %s" % (what, tag, ev["rc"], ev["secs"], frame),
@@ -173,6 +243,7 @@ def run(ctx):
     kindsn = ("boundary", "fault", "valid", "truncate", "mutate")
     cov = {"states": d.distinct, "evaluations": len(inputs), "distinct_nontrivial": len(inputs), "unsafe_runs": len(got),
            "inputs_by_origin": {k: sum(1 for t, _, _ in inputs if t.startswith(k)) for k in kindsn},
+           "short_tokens_exhaustive": ntok, "token_batches": len(tokruns),
            "samples": [json.loads(lines[0]), {"boundary_file_tail": boundary_file("aggr_depth", 3)[-60:]}],
            "rule": "boundary family of every modelled Part 21 table + single-fault files + conforming populations + their "
                    "truncations and byte mutations; each read, written as exchange and working-session file by the sanitizer build"}
